@@ -176,7 +176,8 @@ def main(argv):
         for g in range(ngen):
             size = "heavy" if g % 4 != 3 else "small"
             cands.append({"name": "g%03d.as" % g, "text": progen.gen_program(vsim.Rng(seed, "c09-gen", g), size=size,
-                                                                              force=("frag",) if g % 4 == 1 else (("chain",) if g % 4 == 2 else (("bigdrop",) if g % 4 == 0 else ("sizes",)))).encode(),
+                                                                              force=("frag",) if g % 4 == 1 else (("chain",) if g % 4 == 2 else (("bigdrop",) if g % 4 == 0 else ("sizes",))),
+                                                                              finale=True).encode("latin-1"),
                           "origin": "generated"})
         # one dedicated program for a known finding (raw records with a narrow field before a
         # pointer field, compiled route): kept apart so that it masks nothing else
